@@ -2,7 +2,9 @@
 (* C13 - trace validation: what the REAL code answered, judged by the property spec.        *)
 (*                                                                                          *)
 (* trace.ndjson: line 1 = {"ev":"config"}; then                                             *)
-(*   {"ev":"group","decls":[{"m":..,"h":[..],"p":[..],"r":"d1","g":"g1"},...]}              *)
+(*   {"ev":"group","decls":[{"m":..,"h":[..],"p":[..],"r":"d1","g":"g1","pl":"on"},...]}    *)
+(*        pl = plugins of the declaration: "on" | "off" (declared, disabled) | "none" |       *)
+(*        "donly" (remedy disabled, diagnosis enabled)                                        *)
 (*        a configuration: the declared endpoints (a SET - the order is in the out events)   *)
 (*   {"ev":"req","m":..,"h":[..],"p":[..]}      a request against the current configuration  *)
 (*   {"ev":"out","ord":[2,1,3],"sel":[{"r":..,"norm":..,"params":[[n,v],..]},..],"dsel":[..],*)
@@ -35,7 +37,8 @@ OutOf(e)  == [sel |-> SelOf(e.sel), dsel |-> SelOf(e.dsel),
 TInit == l = 1 /\ D = {} /\ rq = NoOut /\ first = NoOut
 
 TGroup == /\ Consume("group")
-          /\ D' = {[m |-> d.m, p |-> Mk(d.h, d.p), r |-> d.r, g |-> d.g] : d \in SeqSet(Ev.decls)}
+          /\ D' = {[m |-> d.m, p |-> Mk(d.h, d.p), r |-> d.r, g |-> d.g,
+                    re |-> d.pl = "on", ge |-> d.pl \in {"on", "donly"}] : d \in SeqSet(Ev.decls)}
           /\ rq' = NoOut /\ first' = NoOut
 
 TReq == /\ Consume("req")
